@@ -186,6 +186,9 @@ def generate(seed, tier, idx=0):
             kind = rng.choice(KINDS if depth < 3 else KINDS[:-1])
             counter += 1
             key = "k%d" % counter
+            if rng.random() < 0.08:
+                # legal keys with leading / trailing / inner blanks
+                key = rng.choice(["k%d ", " k%d", "k %d", "k%d\t"]) % counter
             if rng.random() < 0.1 and (params or len(maps) > 1):
                 # duplicate key inside that parent
                 sib = [p for p, k, s in params if p.rpartition(".")[0] == parent] + \
